@@ -457,10 +457,35 @@ def r8(ctx, facts):
     c16_r13(ctx, ctx.facts("family"))
 
 
+def r9(ctx, facts):
+    r = ctx.rule("R9", "`frozen` is not part of the type check: whether a collection / UDT column type is frozen decides neither acceptance nor rejection of a value", floor=1)
+    FILES = ("serialize/value.rs", "deserialize/value.rs", "serialize/row.rs", "deserialize/row.rs")
+    n = m = 0
+    for b in facts.bodies.mentioning('"frozen"'):
+        if b.crate != "scylla_cql_core" or "::promoted[" in b.path or not b.span.file.endswith(FILES):
+            continue
+        n += 1
+        df = df_of(b, facts)
+        for bb in sorted(b.live_blocks):
+            t = b.term(bb)
+            if t[0] != "switch":
+                continue
+            e = df.expr_of_operand(t[1])
+            if "frozen" in str(e):
+                m += 1
+                r.instance("branch-on-frozen:" + fn_short(b.path), False,
+                           "%s branches on `%s`: a frozen and a non-frozen column of the same element types take the same values; "
+                           "refusing (or accepting) by this flag breaks every documented pairing for one of the two" % (fn_short(b.path), df.fmt_expr(e)), b.term_span(bb))
+    # how many (de)serialization bodies look at a Collection / UserDefinedType at all (the population the rule ranges over)
+    pop = [b for b in facts.bodies.mentioning("ColumnType") if b.crate == "scylla_cql_core" and "::promoted[" not in b.path and b.span.file.endswith(FILES)]
+    r.instance("population", len(pop) >= 60, "only %d (de)serialization bodies mention ColumnType (expected at least 60): the scan lost its footing" % len(pop), None, nontrivial=False)
+    r.note("%d bodies mention ColumnType, %d mention the `frozen` field, %d branch on it" % (len(pop), n, m))
+
+
 def check(ctx):
     facts = inline_view(ctx.facts("default"))
     config = ctx.alias.get("default", "default")   # the thorough tier re-runs this module over `full` and `unstable`
-    for fn in (lambda c, f: r1_r2(c, f, config), r3, r4, r5, r6, r7, r8):
+    for fn in (lambda c, f: r1_r2(c, f, config), r3, r4, r5, r6, r7, r8, r9):
         try:
             fn(ctx, facts)
         except AnchorLost as ex:
